@@ -105,8 +105,48 @@ def permutations(tier, seed):
     return hs
 
 
+def heap_stress(tier, seed):
+    """One side holds 7-12 resting orders at distinct prices inserted in random order (a queue of 3+ levels);
+    one or two non-best orders are cancelled; an opposite order priced at the k-th best level then sweeps part
+    of that side in a single round.  Aimed at queue maintenance after removals (C02) and at rounds that stop
+    early or trip their self-check (C03)."""
+    rng = random.Random(sub_seed(seed, "heap-stress"))
+    hs = []
+    for i in range(500 if tier == "quick" else 6000):
+        n = rng.randint(7, 12)
+        buy_side = rng.random() < 0.5
+        den, mid = 2, 40
+        levels = rng.sample(range(1, 25), n)
+        s = BookSession(tick=1.0, den=den, exact=True, p0=mid * den)
+        try:
+            ids = []
+            for off in levels:
+                lvl = mid - off if buy_side else mid + off
+                e = s.submit(buy_side, False, lvl * den, 1, 0)
+                ids.append((off, e["id"]))
+            for _ in range(rng.choice([1, 1, 2])):
+                best = min(ids)
+                cand = [x for x in ids if x != best]
+                victim = rng.choice(cand)
+                s.cancel(victim[1])
+                ids.remove(victim)
+            k = rng.randint(2, len(ids) - 1)
+            off_k = sorted(ids)[k - 1][0]
+            lvl = mid - off_k if buy_side else mid + off_k
+            s.submit(not buy_side, False, lvl * den, len(ids), 0)
+            s.match()
+            s.end()
+        except Broken:
+            pass
+        h = s.header()
+        h["src"] = "heap-stress"
+        h["flavour"] = "n=%d" % n
+        hs.append(h)
+    return hs
+
+
 def histories(tier, seed, prop):
-    return tick_grid(tier, seed) + permutations(tier, seed)
+    return tick_grid(tier, seed) + permutations(tier, seed) + heap_stress(tier, seed)
 
 
 # ------------------------------------------------------------------------------------------------ comparison table
